@@ -43,9 +43,9 @@ impl<'a> WireFormat<'a> for SRV<'a> {
     where
         Self: Sized,
     {
-        let priority = u16::from_be_bytes(data[*position..*position + 2].try_into()?);
-        let weight = u16::from_be_bytes(data[*position + 2..*position + 4].try_into()?);
-        let port = u16::from_be_bytes(data[*position + 4..*position + 6].try_into()?);
+        let priority = u16::from_be_bytes(data.get(*position..*position + 2).ok_or(crate::SimpleDnsError::InsufficientData)?.try_into()?);
+        let weight = u16::from_be_bytes(data.get(*position + 2..*position + 4).ok_or(crate::SimpleDnsError::InsufficientData)?.try_into()?);
+        let port = u16::from_be_bytes(data.get(*position + 4..*position + 6).ok_or(crate::SimpleDnsError::InsufficientData)?.try_into()?);
         *position += 6;
         let target = Name::parse(data, position)?;
 
